@@ -1152,19 +1152,19 @@ static int process_table(fb_parser_t *P, fb_compound_type_t *ct)
                         member->type.type = vt_invalid;
                         continue;
                     }
-                } else {
-                    if (fb_coerce_scalar_type(P, sym, ((fb_compound_type_t *)type_sym)->type.st, &member->value)) {
+                }
+                /* A name may refer to a member of another enum, so it is checked like a number. */
+                if (fb_coerce_scalar_type(P, sym, ((fb_compound_type_t *)type_sym)->type.st, &member->value)) {
+                    member->type.type = vt_invalid;
+                    continue;
+                }
+                /* Bitflags can have complex combinations of values, and do not nativele have a 0 value. */
+                if (P->opts.strict_enum_init && !(member->type.ct->metadata_flags & fb_f_bit_flags)
+                        && !(member->flags & fb_fm_optional)) {
+                    if (!is_in_value_set(&member->type.ct->value_set, &member->value)) {
+                        error_sym(P, sym, "initializer does not match a defined enum value");
                         member->type.type = vt_invalid;
                         continue;
-                    }
-                    /* Bitflags can have complex combinations of values, and do not nativele have a 0 value. */
-                    if (P->opts.strict_enum_init && !(member->type.ct->metadata_flags & fb_f_bit_flags)
-                            && !(member->flags & fb_fm_optional)) {
-                        if (!is_in_value_set(&member->type.ct->value_set, &member->value)) {
-                            error_sym(P, sym, "initializer does not match a defined enum value");
-                            member->type.type = vt_invalid;
-                            continue;
-                        }
                     }
                 }
             } else {
